@@ -88,6 +88,8 @@ def action_context_is_replaced_whole(ctx, tag):
 
 
 def run(ctx):
+    from .C02 import action_chain_table
+    action_chain_table(ctx)
     action_context_is_replaced_whole(ctx, "C06")
     uuid_generator_keeps_state(ctx)
     pg_scan_sampling_tick(ctx, "C06")
